@@ -185,7 +185,7 @@ func init() {
 	core.Register(&core.Prop{
 		ID:    "C14",
 		Level: "model_checking",
-		Rule:  "scenarios of 2 (thorough: also 3) threads, each either NewSchema or NewTransform + read to EOF over the same or different Schemas (all seven formats, javascript, javascript_with_context on record and ancestors, templates, copy, 2-record inputs); every schedule with at most 2 preemptions (thorough 3 for 2 threads) under the cooperative scheduler with a scheduling point before and after every node-pool / VM-pool operation, at every atomic add and around every LoadingCache lookup/load/add; all process-wide state is reset before every schedule; every thread's transcript must equal its solo transcript, no panic, no deadlock; states = scheduling points visited, transitions = thread steps; plus a free-running pass of all jobs on shared Schema objects under the race detector with GOMAXPROCS 1, 2, 16",
+		Rule:  "scenarios of 2 (thorough: also 3) threads, each either NewSchema or NewTransform + read to EOF over the same or different Schemas (all seven formats, javascript, javascript_with_context on record and ancestors, templates, copy, 2-record inputs); every schedule with at most 2 preemptions (thorough: 3 for three of the 2-thread scenarios) under the cooperative scheduler with a scheduling point before and after every node-pool / VM-pool operation, at every atomic add and around every LoadingCache lookup/load/add; all process-wide state is reset before every schedule; every thread's transcript must equal its solo transcript, no panic, no deadlock; states = scheduling points visited, transitions = thread steps; plus a free-running pass of all jobs on shared Schema objects under the race detector with GOMAXPROCS 1, 2, 16",
 		Assumptions: []string{
 			"only interleavings at the hooked operations are explored; unsynchronised plain memory accesses are the race detector's job (free-running pass, not exhaustive over schedules)",
 			"goja VMs, encoding/* decoders and the hashicorp LRU are treated as atomic between scheduling points",
@@ -201,8 +201,8 @@ func init() {
 					continue
 				}
 				b := bound
-				if !c.Quick() && len(sc.Threads) == 2 {
-					b = 3
+				if !c.Quick() && len(sc.Threads) == 2 && (si == 1 || si == 7 || si == 8) {
+					b = 3 // three preemptions for the scenarios richest in shared state (json, context-on-ancestor, argument-leak probe)
 				}
 				var sig, detail string
 				var pts int
